@@ -35,8 +35,19 @@ def run_verus(path, workdir, timeout=900, extra=()):
             res["functions"].append({"name": fb.get("function"), "mode": fb.get("mode:"), "success": fb.get("success"),
                                      "ms": fb.get("time"), "rlimit": fb.get("rlimit")})
     res["diagnostics"] = out[:out.find("{\n")][-3000:] if vr.get("errors") else ""
-    if vr.get("encountered-error") or vr.get("encountered-vir-error"):
-        res["reason"] = "verus reported a (non-verification) error"
+    # functions that failed are listed by verus in the diagnostics; the JSON breakdown marks them success=false
+    diag = out
+    n_rlimit = len(re.findall(r"Resource limit \(rlimit\) exceeded", diag))
+    n_rustc = len(re.findall(r"^error\[E\d+\]", diag, re.M))
+    n_verif = len(re.findall(r"^error: (assertion failed|postcondition not satisfied|invariant not satisfied|precondition not met|"
+                             r"possible arithmetic underflow/overflow|decreases not satisfied|recommendation not met)", diag, re.M))
+    res["error_kinds"] = {"rlimit": n_rlimit, "rustc": n_rustc, "verification": n_verif}
+    if vr.get("encountered-vir-error") or n_rustc or (not res["functions"] and not vr.get("success")):
+        res["reason"] = "verus reported a compile/VIR error (lost anchor or unsupported construct)"
+        res["log"] = out[-3000:]
+        return res
+    if vr.get("errors", 0) > 0 and n_verif == 0:
+        res["reason"] = "resource limit (rlimit) exceeded" if n_rlimit else "verus error of unknown kind"
         res["log"] = out[-3000:]
         return res
     res["status"] = "discharged" if vr.get("success") and vr.get("errors", 1) == 0 else "failed"
